@@ -522,4 +522,636 @@ theorem qsortF_spec (hirr : ∀ x, ¬ cmp x x < 0) : ∀ (fuel : Nat) (rs : List
         · exact hrs hc
 end
 
+/-! ## strto* -/
+section strto
+open Igris.Proto (Byte)
+
+
+theorem isspace_rd : ∀ (u : Bool) (b : Byte), isspace (rd u b) = Spec.isSpace b := by decide +kernel
+
+theorem digitOf_rd : ∀ (u : Bool) (b : Byte),
+    digitOf (rd u b) = if Spec.digit b < 36 then some ((Spec.digit b : Nat) : Int) else none := by decide +kernel
+
+theorem isxdigit_toNat : ∀ (b : Byte), isxdigit (b.toNat : Int) = decide (Spec.digit b < 16) := by decide +kernel
+
+theorem rd_eq_lit : ∀ (u : Bool) (b : Byte),
+    (rd u b = 48 ↔ b.toNat = 48) ∧ (rd u b = 45 ↔ b.toNat = 45) ∧ (rd u b = 43 ↔ b.toNat = 43) := by decide +kernel
+
+theorem byte_eq_lit : ∀ (b : Byte), ((b = 120 ∨ b = 88) ↔ (b.toNat = 120 ∨ b.toNat = 88)) := by decide +kernel
+
+theorem digit_le : ∀ (b : Byte), Spec.digit b ≤ 36 := by decide +kernel
+theorem digit_zero : Spec.digit (0 : Byte) = 36 := by decide
+theorem isSpace_zero : Spec.isSpace (0 : Byte) = false := by decide
+
+/-- the cutoff/cutlim test is exactly "one more digit would exceed the limit" -/
+theorem cutoff_test (limit base N d : Nat) (hb : 0 < base) (hd : d < base) :
+    (N > limit / base ∨ (N = limit / base ∧ d > limit % base)) ↔ N * base + d > limit := by
+  have h1 := Nat.div_add_mod limit base
+  have h2 := Nat.mod_lt limit hb
+  generalize limit / base = q at *
+  generalize limit % base = r at *
+  rw [Nat.mul_comm] at h1
+  constructor
+  · rintro (h | ⟨h, h'⟩)
+    · have := Nat.mul_le_mul_right base (show q + 1 ≤ N from h)
+      rw [Nat.add_mul] at this
+      omega
+    · subst h; omega
+  · intro h
+    rcases Nat.lt_trichotomy N q with h3 | h3 | h3
+    · have := Nat.mul_le_mul_right base (show N + 1 ≤ q from h3)
+      rw [Nat.add_mul] at this
+      omega
+    · subst h3; right; exact ⟨rfl, by omega⟩
+    · left; exact h3
+
+/-- state of the unsigned digit loop after a digit string of value `N`
+(`ne`: at least one digit) -/
+def GoodU (limit : Nat) (ovf : Option Nat) (N : Nat) (ne : Bool) (st : Nat × Int) : Prop :=
+  (ne = false → N = 0 ∧ st = (0, 0)) ∧
+  (ne = true → N ≤ limit → st = (N, 1)) ∧
+  (ne = true → limit < N → st.2 = -1 ∧ ∀ v, ovf = some v → st.1 = v)
+
+theorem stepU_good (W base limit : Nat) (ovf : Option Nat) (hb : 0 < base) (hW : limit < W)
+    (N : Nat) (ne : Bool) (st : Nat × Int) (d : Nat) (hd : d < base) (g : GoodU limit ovf N ne st) :
+    GoodU limit ovf (N * base + d) true (stepU W base (limit / base) ((limit % base : Nat) : Int) ovf st (d : Int)) := by
+  obtain ⟨g1, g2, g3⟩ := g
+  have hmono : N ≤ N * base + d := by
+    have := Nat.mul_le_mul_left N (show 1 ≤ base from hb)
+    omega
+  have key := cutoff_test limit base N d hb hd
+  unfold stepU
+  by_cases hne : ne = true
+  · by_cases hN : N ≤ limit
+    · have hst := g2 hne hN
+      subst hst
+      have hcond : ((N > limit / base ∨ (N = limit / base ∧ (d : Int) > ((limit % base : Nat) : Int))) ↔ N * base + d > limit) := by
+        rw [← key]
+        constructor
+        · rintro (h | ⟨h, h'⟩)
+          · left; exact h
+          · right; exact ⟨h, by omega⟩
+        · rintro (h | ⟨h, h'⟩)
+          · left; exact h
+          · right; exact ⟨h, by omega⟩
+      simp only [show ¬ ((1 : Int) < 0) by omega, if_false]
+      by_cases hov : N * base + d > limit
+      · rw [if_pos (hcond.2 hov)]
+        refine ⟨(by intro h; cases h), (by intro _ h; omega), ?_⟩
+        intro _ _
+        refine ⟨rfl, ?_⟩
+        intro v hv; simp [hv]
+      · rw [if_neg (fun h => hov (hcond.1 h))]
+        refine ⟨(by intro h; cases h), ?_, (by intro _ h; omega)⟩
+        intro _ _
+        have : (N * base + (d : Int).toNat) % W = N * base + d := by
+          simp only [Int.toNat_natCast]
+          exact Nat.mod_eq_of_lt (by omega)
+        rw [this]
+    · have hst := g3 hne (by omega)
+      simp only [hst.1, show ((-1 : Int) < 0) by omega, if_true]
+      refine ⟨(by intro h; cases h), (by intro _ h; omega), ?_⟩
+      intro _ _
+      exact hst
+  · have hne' : ne = false := by cases ne <;> simp_all
+    obtain ⟨hN0, hst⟩ := g1 hne'
+    subst hN0; subst hst
+    have hcond : (((0 : Nat) > limit / base ∨ ((0 : Nat) = limit / base ∧ (d : Int) > ((limit % base : Nat) : Int))) ↔ 0 * base + d > limit) := by
+      rw [← key]
+      constructor
+      · rintro (h | ⟨h, h'⟩)
+        · left; exact h
+        · right; exact ⟨h, by omega⟩
+      · rintro (h | ⟨h, h'⟩)
+        · left; exact h
+        · right; exact ⟨h, by omega⟩
+    simp only [show ¬ ((0 : Int) < 0) by omega, if_false]
+    by_cases hov : 0 * base + d > limit
+    · rw [if_pos (hcond.2 hov)]
+      refine ⟨(by intro h; cases h), (by intro _ h; omega), ?_⟩
+      intro _ _
+      refine ⟨rfl, ?_⟩
+      intro v hv; simp [hv]
+    · rw [if_neg (fun h => hov (hcond.1 h))]
+      refine ⟨(by intro h; cases h), ?_, (by intro _ h; omega)⟩
+      intro _ _
+      have : (0 * base + (d : Int).toNat) % W = 0 * base + d := by
+        simp only [Int.toNat_natCast]
+        exact Nat.mod_eq_of_lt (by omega)
+      rw [this]
+
+theorem foldU_good (W base limit : Nat) (ovf : Option Nat) (hb : 0 < base) (hW : limit < W) :
+    ∀ (ds : List Nat) (N : Nat) (ne : Bool) (st : Nat × Int), (∀ d ∈ ds, d < base) → GoodU limit ovf N ne st →
+    GoodU limit ovf (ds.foldl (fun a d => a * base + d) N) (ne || !ds.isEmpty)
+      (ds.foldl (fun st (d : Nat) => stepU W base (limit / base) ((limit % base : Nat) : Int) ovf st (d : Int)) st) := by
+  intro ds
+  induction ds with
+  | nil => intro N ne st _ g; simpa using g
+  | cons d ds ih =>
+    intro N ne st hds g
+    simp only [List.foldl_cons]
+    have := ih (N * base + d) true _ (fun x hx => hds x (List.mem_cons_of_mem _ hx))
+      (stepU_good W base limit ovf hb hW N ne st d (hds d List.mem_cons_self) g)
+    simpa using this
+
+theorem loopU_spec (W base cutoff : Nat) (cutlim : Int) (lp : Bool) (ovf : Option Nat) (hb36 : base ≤ 36) :
+    ∀ (bs : List Byte) (stop : Byte) (tail : List Byte), (∀ x ∈ bs, Spec.digit x < base) → ¬ Spec.digit stop < base →
+    ∀ (cb : Byte) (rest : List Byte), cb :: rest = bs ++ stop :: tail → ∀ (u : Bool) (off : Nat) (st : Nat × Int),
+    loopU W base cutoff cutlim lp ovf rest (rd u cb) off st =
+      some (((bs.map Spec.digit).foldl (fun st (d : Nat) => stepU W base cutoff cutlim ovf st (d : Int)) st).1,
+            ((bs.map Spec.digit).foldl (fun st (d : Nat) => stepU W base cutoff cutlim ovf st (d : Int)) st).2,
+            off + bs.length) := by
+  intro bs
+  induction bs with
+  | nil =>
+    intro stop tail _ hstop cb rest heq u off st
+    simp only [List.nil_append, List.cons.injEq] at heq
+    obtain ⟨h1, h2⟩ := heq
+    subst h1; subst h2
+    unfold loopU
+    rw [digitOf_rd]
+    by_cases h36 : Spec.digit cb < 36
+    · simp only [h36, if_true]
+      have : ((Spec.digit cb : Nat) : Int) ≥ (base : Int) := by omega
+      simp only [this, if_true, List.map_nil, List.foldl_nil, List.length_nil, Nat.add_zero]
+    · simp only [h36, if_false, List.map_nil, List.foldl_nil, List.length_nil, Nat.add_zero]
+  | cons x bs ih =>
+    intro stop tail hbs hstop cb rest heq u off st
+    simp only [List.cons_append, List.cons.injEq] at heq
+    obtain ⟨h1, h2⟩ := heq
+    subst h1
+    have hx := hbs cb List.mem_cons_self
+    unfold loopU
+    rw [digitOf_rd]
+    have h36 : Spec.digit cb < 36 := by omega
+    simp only [h36, if_true]
+    have : ¬ ((Spec.digit cb : Nat) : Int) ≥ (base : Int) := by omega
+    simp only [this, if_false]
+    -- the next character exists: it is a digit of the run or the stopping character
+    have hne : ∃ cb' rest', cb' :: rest' = bs ++ stop :: tail := by
+      cases bs with
+      | nil => exact ⟨stop, tail, rfl⟩
+      | cons y ys => exact ⟨y, ys ++ stop :: tail, rfl⟩
+    obtain ⟨cb', rest', heq'⟩ := hne
+    rw [h2, ← heq']
+    simp only
+    rw [ih stop tail (fun y hy => hbs y (List.mem_cons_of_mem _ hy)) hstop cb' rest' heq' lp (off + 1)]
+    simp only [List.map_cons, List.foldl_cons, List.length_cons]
+    congr 2
+    congr 1
+    omega
+
+theorem skipWs_spec (u : Bool) : ∀ (t : List Byte) (off : Nat),
+    ∃ cb rest, cb :: rest = t.dropWhile Spec.isSpace ++ [0] ∧
+      skipWs u (t ++ [0]) off = some (rd u cb, rest, off + (t.takeWhile Spec.isSpace).length + 1) := by
+  intro t
+  induction t with
+  | nil =>
+    intro off
+    refine ⟨0, [], rfl, ?_⟩
+    simp only [List.nil_append, skipWs, isspace_rd, isSpace_zero, List.takeWhile_nil, List.length_nil]
+    rfl
+  | cons c t ih =>
+    intro off
+    by_cases hc : Spec.isSpace c = true
+    · obtain ⟨cb, rest, h1, h2⟩ := ih (off + 1)
+      refine ⟨cb, rest, ?_, ?_⟩
+      · simp only [List.dropWhile_cons, hc, if_true]; exact h1
+      · simp only [List.cons_append, skipWs, isspace_rd, hc, if_true, h2, List.takeWhile_cons, List.length_cons]
+        congr 3; omega
+    · have hc' : Spec.isSpace c = false := by cases h : Spec.isSpace c <;> simp_all
+      refine ⟨c, t ++ [0], ?_, ?_⟩
+      · simp only [List.dropWhile_cons, hc', List.cons_append]; rfl
+      · simp only [List.cons_append, skipWs, isspace_rd, hc', List.takeWhile_cons, List.length_nil]
+        rfl
+
+theorem signStep_spec (R : Reads) (t1 : List Byte) (cb : Byte) (rest : List Byte) (h : cb :: rest = t1 ++ [0])
+    (u : Bool) (off : Nat) :
+    ∃ cb2 rest2 u2, cb2 :: rest2 = (Spec.sign t1).2.2 ++ [0] ∧
+      signStep R (rd u cb) rest off = some ((Spec.sign t1).1, rd u2 cb2, rest2, off + (Spec.sign t1).2.1) := by
+  obtain ⟨l48, l45, l43⟩ := rd_eq_lit u cb
+  cases t1 with
+  | nil =>
+    simp only [List.nil_append, List.cons.injEq] at h
+    obtain ⟨h1, h2⟩ := h
+    subst h1; subst h2
+    refine ⟨0, [], u, rfl, ?_⟩
+    have a : ¬ rd u (0 : Byte) = 45 := by rw [(rd_eq_lit u 0).2.1]; decide
+    have b : ¬ rd u (0 : Byte) = 43 := by rw [(rd_eq_lit u 0).2.2]; decide
+    simp only [signStep, a, b, if_false, Spec.sign, Nat.add_zero]
+  | cons b r =>
+    simp only [List.cons_append, List.cons.injEq] at h
+    obtain ⟨h1, h2⟩ := h
+    subst h1; subst h2
+    -- the character after the sign exists
+    have hne : ∃ cb2 rest2, cb2 :: rest2 = r ++ [0] := by
+      cases r with
+      | nil => exact ⟨0, [], rfl⟩
+      | cons y ys => exact ⟨y, ys ++ [0], rfl⟩
+    obtain ⟨cb2, rest2, heq⟩ := hne
+    by_cases h45 : cb.toNat = 45
+    · refine ⟨cb2, rest2, R.sg, ?_, ?_⟩
+      · simp only [Spec.sign, h45, if_true]; exact heq
+      · simp only [signStep, l45.2 h45, if_true, ← heq, Spec.sign, h45]
+    · by_cases h43 : cb.toNat = 43
+      · refine ⟨cb2, rest2, R.sg, ?_, ?_⟩
+        · simp only [Spec.sign, h45, h43, if_true, if_false]; exact heq
+        · have : ¬ rd u cb = 45 := fun h => h45 (l45.1 h)
+          simp only [signStep, l43.2 h43, ← heq, Spec.sign, h43]
+          simp
+      · refine ⟨cb, r ++ [0], u, ?_, ?_⟩
+        · simp only [Spec.sign, h45, h43, if_false]; rfl
+        · have a : ¬ rd u cb = 45 := fun h => h45 (l45.1 h)
+          have b : ¬ rd u cb = 43 := fun h => h43 (l43.1 h)
+          simp only [signStep, a, b, if_false, Spec.sign, h45, h43, Nat.add_zero]
+
+theorem base0_eff (u : Bool) (base : Nat) (t2 : List Byte) (cb : Byte) (rest : List Byte) (h : cb :: rest = t2 ++ [0]) :
+    base0 (rd u cb) base = Spec.effBase base false t2 := by
+  obtain ⟨l48, _, _⟩ := rd_eq_lit u cb
+  unfold base0 Spec.effBase
+  cases t2 with
+  | nil =>
+    simp only [List.nil_append, List.cons.injEq] at h
+    obtain ⟨h1, _⟩ := h
+    subst h1
+    have : ¬ rd u (0#8) = 48 := by rw [(rd_eq_lit u 0#8).1]; decide
+    simp [this]
+  | cons z r =>
+    simp only [List.cons_append, List.cons.injEq] at h
+    obtain ⟨h1, _⟩ := h
+    subst h1
+    by_cases h48 : cb.toNat = 48
+    · simp [l48.2 h48, h48]
+    · have : ¬ rd u cb = 48 := fun h => h48 (l48.1 h)
+      simp [this, h48]
+
+theorem prefixStep_spec (R : Reads) (base : Nat) (t2 : List Byte) (cb : Byte) (rest : List Byte)
+    (h : cb :: rest = t2 ++ [0]) (u : Bool) (off : Nat) (neg : Bool) :
+    ∃ cb3 rest3 u3,
+      cb3 :: rest3 = (if (decide (base = 0 ∨ base = 16) && Spec.hexPrefix t2) = true then t2.drop 2 else t2) ++ [0] ∧
+      prefixStep R base neg (rd u cb) rest off =
+        some ⟨neg, rd u3 cb3, rest3, off + (if (decide (base = 0 ∨ base = 16) && Spec.hexPrefix t2) = true then 2 else 0),
+              Spec.effBase base (decide (base = 0 ∨ base = 16) && Spec.hexPrefix t2) t2⟩ := by
+  obtain ⟨l48, _, _⟩ := rd_eq_lit u cb
+  have hb0 := base0_eff u base t2 cb rest h
+  -- the fall-through answer (no prefix consumed)
+  have fall : (decide (base = 0 ∨ base = 16) && Spec.hexPrefix t2) = false →
+      prefixStep R base neg (rd u cb) rest off = some ⟨neg, rd u cb, rest, off, base0 (rd u cb) base⟩ →
+      ∃ cb3 rest3 u3,
+      cb3 :: rest3 = (if (decide (base = 0 ∨ base = 16) && Spec.hexPrefix t2) = true then t2.drop 2 else t2) ++ [0] ∧
+      prefixStep R base neg (rd u cb) rest off =
+        some ⟨neg, rd u3 cb3, rest3, off + (if (decide (base = 0 ∨ base = 16) && Spec.hexPrefix t2) = true then 2 else 0),
+              Spec.effBase base (decide (base = 0 ∨ base = 16) && Spec.hexPrefix t2) t2⟩ := by
+    intro hh hp
+    refine ⟨cb, rest, u, ?_, ?_⟩
+    · simp only [hh]; exact h
+    · rw [hp, hh, hb0]; simp
+  by_cases hcond : (base = 0 ∨ base = 16) ∧ rd u cb = 48
+  · obtain ⟨hbase, hc48⟩ := hcond
+    have h48 := l48.1 hc48
+    cases t2 with
+    | nil =>
+      simp only [List.nil_append, List.cons.injEq] at h
+      obtain ⟨h1, _⟩ := h
+      subst h1
+      exact absurd h48 (by decide)
+    | cons z r =>
+      simp only [List.cons_append, List.cons.injEq] at h
+      obtain ⟨h1, h2⟩ := h
+      subst h1
+      cases r with
+      | nil =>
+        subst h2
+        apply fall
+        · simp [Spec.hexPrefix]
+        · simp only [prefixStep, hbase, hc48, and_self, if_true, List.nil_append]
+          have : ¬ ((0 : Byte) = 120 ∨ (0 : Byte) = 88) := by decide
+          simp only [this, if_false]
+      | cons x r' =>
+        by_cases hx : x = 120 ∨ x = 88
+        · cases r' with
+          | nil =>
+            subst h2
+            apply fall
+            · simp [Spec.hexPrefix]
+            · simp only [prefixStep, hbase, hc48, and_self, if_true, List.cons_append, List.nil_append, hx]
+              have : ¬ (isxdigit ((0 : Byte).toNat : Int) = true) := by decide
+              simp only [this, if_false]
+              simp
+          | cons y r'' =>
+            subst h2
+            by_cases hy : Spec.digit y < 16
+            · have hhex : (decide (base = 0 ∨ base = 16) && Spec.hexPrefix (cb :: x :: y :: r'')) = true := by
+                have := (byte_eq_lit x).1 hx
+                simp only [Spec.hexPrefix, hbase, decide_true, Bool.true_and, h48, hy, Bool.and_true]
+                rcases this with h | h <;> simp [h]
+              refine ⟨y, r'' ++ [0], R.sg, ?_, ?_⟩
+              · simp only [hhex, if_true, List.drop_succ_cons, List.drop_zero, List.cons_append]
+              · simp only [hhex]
+                simp only [prefixStep, hbase, hc48, and_self, if_true, List.cons_append, hx, isxdigit_toNat, hy, decide_true,
+                  Spec.effBase, base0]
+                simp
+            · apply fall
+              · have : ¬ (Spec.digit y < 16) := hy
+                simp [Spec.hexPrefix, this]
+              · simp only [prefixStep, hbase, hc48, and_self, if_true, List.cons_append, hx, isxdigit_toNat, hy, decide_false]
+                simp
+        · subst h2
+          apply fall
+          · have := fun h => hx ((byte_eq_lit x).2 h)
+            have a : ¬ x.toNat = 120 := fun h => this (Or.inl h)
+            have b : ¬ x.toNat = 88 := fun h => this (Or.inr h)
+            cases r' <;> simp [Spec.hexPrefix, a, b]
+          · simp only [prefixStep, hbase, hc48, and_self, if_true, List.cons_append, hx, if_false]
+  · apply fall
+    · by_cases hbase : base = 0 ∨ base = 16
+      · have hc : ¬ rd u cb = 48 := fun h => hcond ⟨hbase, h⟩
+        have h48 : ¬ cb.toNat = 48 := fun h => hc (l48.2 h)
+        cases t2 with
+        | nil => simp [Spec.hexPrefix]
+        | cons z r =>
+          simp only [List.cons_append, List.cons.injEq] at h
+          obtain ⟨h1, _⟩ := h
+          subst h1
+          match r with
+          | [] => simp [Spec.hexPrefix]
+          | [_] => simp [Spec.hexPrefix]
+          | _ :: _ :: _ => simp [Spec.hexPrefix, h48]
+      · simp [hbase]
+    · simp only [prefixStep, hcond, if_false]
+
+theorem front_spec (R : Reads) (t : List Byte) (base : Nat) :
+    ∃ cb rest u,
+      cb :: rest = (if (decide (base = 0 ∨ base = 16) && Spec.hexPrefix (Spec.sign (t.dropWhile Spec.isSpace)).2.2) = true
+          then (Spec.sign (t.dropWhile Spec.isSpace)).2.2.drop 2 else (Spec.sign (t.dropWhile Spec.isSpace)).2.2) ++ [0] ∧
+      front R (t ++ [0]) base = some ⟨(Spec.sign (t.dropWhile Spec.isSpace)).1, rd u cb, rest,
+        (t.takeWhile Spec.isSpace).length + (Spec.sign (t.dropWhile Spec.isSpace)).2.1 +
+          (if (decide (base = 0 ∨ base = 16) && Spec.hexPrefix (Spec.sign (t.dropWhile Spec.isSpace)).2.2) = true then 2 else 0) + 1,
+        Spec.effBase base (decide (base = 0 ∨ base = 16) && Spec.hexPrefix (Spec.sign (t.dropWhile Spec.isSpace)).2.2)
+          (Spec.sign (t.dropWhile Spec.isSpace)).2.2⟩ := by
+  obtain ⟨cb1, rest1, e1, h1⟩ := skipWs_spec R.ws t 0
+  obtain ⟨cb2, rest2, u2, e2, h2⟩ := signStep_spec R (t.dropWhile Spec.isSpace) cb1 rest1 e1 R.ws (0 + (t.takeWhile Spec.isSpace).length + 1)
+  obtain ⟨cb3, rest3, u3, e3, h3⟩ := prefixStep_spec R base (Spec.sign (t.dropWhile Spec.isSpace)).2.2 cb2 rest2 e2 u2
+    (0 + (t.takeWhile Spec.isSpace).length + 1 + (Spec.sign (t.dropWhile Spec.isSpace)).2.1) (Spec.sign (t.dropWhile Spec.isSpace)).1
+  refine ⟨cb3, rest3, u3, e3, ?_⟩
+  unfold front
+  rw [h1]; simp only
+  rw [h2]; simp only
+  rw [h3]
+  congr 2
+  omega
+
+theorem run_split (b : Nat) (hb : b ≤ 36) : ∀ (t3 : List Byte),
+    ∃ stop tail, t3 ++ [0] = t3.takeWhile (fun x => decide (Spec.digit x < b)) ++ stop :: tail ∧ ¬ Spec.digit stop < b := by
+  intro t3
+  induction t3 with
+  | nil => exact ⟨0, [], rfl, by rw [show Spec.digit (0 : Byte) = 36 by decide]; omega⟩
+  | cons x xs ih =>
+    by_cases hx : Spec.digit x < b
+    · obtain ⟨stop, tail, h1, h2⟩ := ih
+      refine ⟨stop, tail, ?_, h2⟩
+      simp only [List.takeWhile_cons, hx, decide_true, if_true, List.cons_append, h1]
+    · refine ⟨x, xs ++ [0], ?_, hx⟩
+      simp only [List.takeWhile_cons, hx, decide_false, List.cons_append, List.nil_append]
+      rfl
+
+theorem digits_eq (b : Nat) (t3 : List Byte) :
+    Spec.digits b t3 = (t3.takeWhile (fun x => decide (Spec.digit x < b))).map Spec.digit := by
+  unfold Spec.digits
+  rw [List.takeWhile_map]
+  rfl
+
+theorem effBase_range (base : Nat) (hbase : base = 0 ∨ (2 ≤ base ∧ base ≤ 36)) (hex : Bool) (t2 : List Byte) :
+    2 ≤ Spec.effBase base hex t2 ∧ Spec.effBase base hex t2 ≤ 36 := by
+  unfold Spec.effBase
+  split
+  · omega
+  · split
+    · split <;> omega
+    · omega
+
+
+theorem mem_takeWhile_sat {α : Type} {p : α → Bool} : ∀ {l : List α} {x : α}, x ∈ l.takeWhile p → p x = true := by
+  intro l
+  induction l with
+  | nil => intro x h; simp at h
+  | cons y ys ih =>
+    intro x h
+    rw [List.takeWhile_cons] at h
+    by_cases hy : p y = true
+    · simp only [hy, if_true, List.mem_cons] at h
+      rcases h with h | h
+      · rw [h]; exact hy
+      · exact ih h
+    · simp [hy] at h
+
+theorem loopU_good (W b limit : Nat) (ovf : Option Nat) (lp : Bool) (hb2 : 2 ≤ b) (hb36 : b ≤ 36) (hW : limit < W)
+    (t3 : List Byte) (cb : Byte) (rest : List Byte) (h : cb :: rest = t3 ++ [0]) (u : Bool) (off : Nat) :
+    ∃ st : Nat × Int,
+      loopU W b (limit / b) ((limit % b : Nat) : Int) lp ovf rest (rd u cb) off (0, 0) =
+        some (st.1, st.2, off + (Spec.digits b t3).length) ∧
+      GoodU limit ovf (Spec.ofDigits b (Spec.digits b t3)) (!(Spec.digits b t3).isEmpty) st := by
+  obtain ⟨stop, tail, hsplit, hstop⟩ := run_split b hb36 t3
+  have hrun := loopU_spec W b (limit / b) ((limit % b : Nat) : Int) lp ovf hb36
+    (t3.takeWhile (fun x => decide (Spec.digit x < b))) stop tail
+    (by intro x hx; have := mem_takeWhile_sat hx; simpa using this) hstop cb rest (by rw [h, hsplit]) u off (0, 0)
+  refine ⟨((t3.takeWhile (fun x => decide (Spec.digit x < b))).map Spec.digit).foldl
+    (fun st (d : Nat) => stepU W b (limit / b) ((limit % b : Nat) : Int) ovf st (d : Int)) (0, 0), ?_, ?_⟩
+  · rw [hrun, digits_eq, List.length_map]
+  · rw [digits_eq]
+    have g0 : GoodU limit ovf 0 false ((0 : Nat), (0 : Int)) :=
+      ⟨fun _ => ⟨rfl, rfl⟩, (by intro h; cases h), (by intro h; cases h)⟩
+    have := foldU_good W b limit ovf (by omega) hW
+      ((t3.takeWhile (fun x => decide (Spec.digit x < b))).map Spec.digit) 0 false (0, 0)
+      (by
+        intro d hd
+        obtain ⟨x, hx, rfl⟩ := List.mem_map.1 hd
+        have := mem_takeWhile_sat hx; simpa using this) g0
+    simpa [Spec.ofDigits] using this
+
+theorem pow_split (w : Nat) (hw : 0 < w) : 2 ^ w = 2 * 2 ^ (w - 1) ∧ 0 < 2 ^ (w - 1) := by
+  have : w = (w - 1) + 1 := by omega
+  constructor
+  · conv => lhs; rw [this, Nat.pow_succ]
+    omega
+  · exact Nat.two_pow_pos _
+
+theorem strtoSU_spec (w : Nat) (hw : 0 < w) (R : Reads) (t : List Byte) (base : Nat)
+    (hbase : base = 0 ∨ (2 ≤ base ∧ base ≤ 36)) :
+    strtoSU w R (t ++ [0]) base = some (Spec.signedResult w (Spec.parse t base)) := by
+  obtain ⟨cb, rest, u, hcb, hfront⟩ := front_spec R t base
+  obtain ⟨hW2, hH0⟩ := pow_split w hw
+  generalize hsg : Spec.sign (t.dropWhile Spec.isSpace) = sg at hcb hfront
+  generalize hhex : (decide (base = 0 ∨ base = 16) && Spec.hexPrefix sg.2.2) = hex at hcb hfront
+  obtain ⟨hb2, hb36⟩ := effBase_range base hbase hex sg.2.2
+  generalize hb : Spec.effBase base hex sg.2.2 = b at hfront hb2 hb36
+  generalize ht3 : (if hex = true then sg.2.2.drop 2 else sg.2.2) = t3 at hcb
+  have hHi : (2 : Int) ^ (w - 1) = ((2 ^ (w - 1) : Nat) : Int) := by norm_cast
+  have hWi : (2 : Int) ^ w = ((2 ^ w : Nat) : Int) := by norm_cast
+  generalize hH : 2 ^ (w - 1) = H at *
+  generalize hWW : 2 ^ w = W at *
+  obtain ⟨st, hloop, hgood⟩ := loopU_good W b (if sg.1 = true then H else H - 1) none R.lp hb2 hb36
+    (by split <;> omega) t3 cb rest hcb u
+    ((t.takeWhile Spec.isSpace).length + sg.2.1 + (if hex = true then 2 else 0) + 1)
+  unfold strtoSU
+  rw [hfront]
+  simp only [hH, hWW]
+  rw [hloop]
+  simp only
+  -- the specification side
+  have hparse : Spec.parse t base =
+      if Spec.digits b t3 = [] then none
+      else some ⟨sg.1, Spec.ofDigits b (Spec.digits b t3),
+        (t.takeWhile Spec.isSpace).length + sg.2.1 + (if hex = true then 2 else 0) + (Spec.digits b t3).length⟩ := by
+    unfold Spec.parse
+    simp only [hsg, hhex, hb, ht3]
+  rw [hparse]
+  obtain ⟨g1, g2, g3⟩ := hgood
+  by_cases hds : Spec.digits b t3 = []
+  · obtain ⟨_, hst⟩ := g1 (by simp [hds])
+    simp only [hds, if_true, Spec.signedResult]
+    rw [hst]
+    simp only [endOff, asSigned, hH]
+    simp [hH0]
+  · have hne : (!(Spec.digits b t3).isEmpty) = true := by
+      cases h : Spec.digits b t3 with
+      | nil => exact absurd h hds
+      | cons _ _ => rfl
+    have hlen : 0 < (Spec.digits b t3).length := by
+      cases h : Spec.digits b t3 with
+      | nil => exact absurd h hds
+      | cons _ _ => simp
+    simp only [hds, if_false, Spec.signedResult, hHi]
+    generalize Spec.ofDigits b (Spec.digits b t3) = mag at *
+    generalize (Spec.digits b t3).length = len at *
+    by_cases hfit : mag ≤ (if sg.1 = true then H else H - 1)
+    · have hst := g2 hne hfit
+      rw [hst]
+      simp only [endOff, asSigned, hH, hWW, hWi]
+      have hmod : (W - mag) % W = if mag = 0 then 0 else W - mag := by
+        by_cases hm0 : mag = 0
+        · subst hm0; simp
+        · simp only [hm0, if_false]; exact Nat.mod_eq_of_lt (by omega)
+      rw [hmod]
+      cases hneg : sg.1 <;> simp only [hneg] at hfit <;> simp only [Bool.false_eq_true, if_false, if_true] at hfit ⊢ <;>
+        refine congrArg some (Prod.ext ?_ ?_) <;> simp only [] <;> (repeat' split) <;> omega
+    · have hst := g3 hne (by omega)
+      obtain ⟨hany, _⟩ := hst
+      simp only [hany, endOff, asSigned, hH, hWW, hWi]
+      cases hneg : sg.1 <;> simp only [hneg] at hfit <;> simp only [Bool.false_eq_true, if_false, if_true] at hfit ⊢ <;>
+        refine congrArg some (Prod.ext ?_ ?_) <;> simp only [] <;> (repeat' split) <;> omega
+
+theorem strtoUU_spec (w : Nat) (R : Reads) (t : List Byte) (base : Nat)
+    (hbase : base = 0 ∨ (2 ≤ base ∧ base ≤ 36)) :
+    strtoUU w R (t ++ [0]) base = some (Spec.unsignedResult w (Spec.parse t base)) := by
+  obtain ⟨cb, rest, u, hcb, hfront⟩ := front_spec R t base
+  have hW0 : 0 < 2 ^ w := Nat.two_pow_pos _
+  generalize hsg : Spec.sign (t.dropWhile Spec.isSpace) = sg at hcb hfront
+  generalize hhex : (decide (base = 0 ∨ base = 16) && Spec.hexPrefix sg.2.2) = hex at hcb hfront
+  obtain ⟨hb2, hb36⟩ := effBase_range base hbase hex sg.2.2
+  generalize hb : Spec.effBase base hex sg.2.2 = b at hfront hb2 hb36
+  generalize ht3 : (if hex = true then sg.2.2.drop 2 else sg.2.2) = t3 at hcb
+  generalize hWW : 2 ^ w = W at *
+  obtain ⟨st, hloop, hgood⟩ := loopU_good W b (W - 1) none R.lp hb2 hb36 (by omega) t3 cb rest hcb u
+    ((t.takeWhile Spec.isSpace).length + sg.2.1 + (if hex = true then 2 else 0) + 1)
+  unfold strtoUU
+  rw [hfront]
+  simp only [hWW]
+  rw [hloop]
+  simp only
+  have hparse : Spec.parse t base =
+      if Spec.digits b t3 = [] then none
+      else some ⟨sg.1, Spec.ofDigits b (Spec.digits b t3),
+        (t.takeWhile Spec.isSpace).length + sg.2.1 + (if hex = true then 2 else 0) + (Spec.digits b t3).length⟩ := by
+    unfold Spec.parse
+    simp only [hsg, hhex, hb, ht3]
+  rw [hparse]
+  obtain ⟨g1, g2, g3⟩ := hgood
+  by_cases hds : Spec.digits b t3 = []
+  · obtain ⟨_, hst⟩ := g1 (by simp [hds])
+    simp only [hds, if_true, Spec.unsignedResult]
+    rw [hst]
+    simp [endOff]
+  · have hne : (!(Spec.digits b t3).isEmpty) = true := by
+      cases h : Spec.digits b t3 with
+      | nil => exact absurd h hds
+      | cons _ _ => rfl
+    have hlen : 0 < (Spec.digits b t3).length := by
+      cases h : Spec.digits b t3 with
+      | nil => exact absurd h hds
+      | cons _ _ => simp
+    simp only [hds, if_false, Spec.unsignedResult, hWW]
+    generalize Spec.ofDigits b (Spec.digits b t3) = mag at *
+    generalize (Spec.digits b t3).length = len at *
+    by_cases hfit : mag ≤ W - 1
+    · have hst := g2 hne hfit
+      rw [hst]
+      simp only [endOff]
+      generalize (W - mag) % W = nm
+      refine congrArg some (Prod.ext ?_ ?_) <;> simp only [] <;> (repeat' split) <;> omega
+    · have hst := g3 hne (by omega)
+      obtain ⟨hany, _⟩ := hst
+      simp only [hany, endOff]
+      generalize (W - mag) % W = nm
+      generalize (W - st.1) % W = nm'
+      refine congrArg some (Prod.ext ?_ ?_) <;> simp only [] <;> (repeat' split) <;> omega
+
+theorem strtoULL_spec (w : Nat) (R : Reads) (t : List Byte) (base : Nat)
+    (hbase : base = 0 ∨ (2 ≤ base ∧ base ≤ 36)) :
+    strtoULL w R (t ++ [0]) base = some (Spec.unsignedResult w (Spec.parse t base)) := by
+  obtain ⟨cb, rest, u, hcb, hfront⟩ := front_spec R t base
+  have hW0 : 0 < 2 ^ w := Nat.two_pow_pos _
+  generalize hsg : Spec.sign (t.dropWhile Spec.isSpace) = sg at hcb hfront
+  generalize hhex : (decide (base = 0 ∨ base = 16) && Spec.hexPrefix sg.2.2) = hex at hcb hfront
+  obtain ⟨hb2, hb36⟩ := effBase_range base hbase hex sg.2.2
+  generalize hb : Spec.effBase base hex sg.2.2 = b at hfront hb2 hb36
+  generalize ht3 : (if hex = true then sg.2.2.drop 2 else sg.2.2) = t3 at hcb
+  generalize hWW : 2 ^ w = W at *
+  obtain ⟨st, hloop, hgood⟩ := loopU_good W b (W - 1) (some (W - 1)) R.lp hb2 hb36 (by omega) t3 cb rest hcb u
+    ((t.takeWhile Spec.isSpace).length + sg.2.1 + (if hex = true then 2 else 0) + 1)
+  unfold strtoULL
+  rw [hfront]
+  simp only [hWW]
+  rw [hloop]
+  simp only
+  have hparse : Spec.parse t base =
+      if Spec.digits b t3 = [] then none
+      else some ⟨sg.1, Spec.ofDigits b (Spec.digits b t3),
+        (t.takeWhile Spec.isSpace).length + sg.2.1 + (if hex = true then 2 else 0) + (Spec.digits b t3).length⟩ := by
+    unfold Spec.parse
+    simp only [hsg, hhex, hb, ht3]
+  rw [hparse]
+  obtain ⟨g1, g2, g3⟩ := hgood
+  by_cases hds : Spec.digits b t3 = []
+  · obtain ⟨_, hst⟩ := g1 (by simp [hds])
+    simp only [hds, if_true, Spec.unsignedResult]
+    rw [hst]
+    simp [endOff]
+  · have hne : (!(Spec.digits b t3).isEmpty) = true := by
+      cases h : Spec.digits b t3 with
+      | nil => exact absurd h hds
+      | cons _ _ => rfl
+    have hlen : 0 < (Spec.digits b t3).length := by
+      cases h : Spec.digits b t3 with
+      | nil => exact absurd h hds
+      | cons _ _ => simp
+    simp only [hds, if_false, Spec.unsignedResult, hWW]
+    generalize Spec.ofDigits b (Spec.digits b t3) = mag at *
+    generalize (Spec.digits b t3).length = len at *
+    by_cases hfit : mag ≤ W - 1
+    · have hst := g2 hne hfit
+      rw [hst]
+      simp only [endOff]
+      generalize (W - mag) % W = nm
+      cases sg.1 <;> refine congrArg some (Prod.ext ?_ ?_) <;> simp <;> omega
+    · have hst := g3 hne (by omega)
+      obtain ⟨hany, hacc⟩ := hst
+      have hacc' := hacc (W - 1) rfl
+      simp only [hany, hacc', endOff]
+      generalize (W - mag) % W = nm
+      generalize (W - (W - 1)) % W = nm'
+      cases sg.1 <;> refine congrArg some (Prod.ext ?_ ?_) <;> simp <;> omega
+
+end strto
+
 end Igris.C11
